@@ -107,7 +107,22 @@ def C08_roundtrip(s, m):
     return None
 ''' % (K, ids))
     c.params(s="obj:spake2." + K, m="bytes").returns("none")
-    c.lemma_tags = {"C08"}
+    c.lemma_tags = {"C08", "C09"}
+    # C09, last sentence: a blob saved at ANY point of the session's life after start() - also after finish(), which the
+    # code allows - restores to an instance with the original scalar, identities and outbound message
+    c = REG.ghost_function("lemma.C09_restore_reproduces_" + K, "spake2", '''
+def C09_restore_reproduces(s):
+    assume(s._started and hasfield(s, 'outbound_message'))
+    blob = s.serialize()
+    r = %s.from_serialized(blob, s.params, _ghost_x0=s.xy_scalar)
+    assert r.pw == s.pw, "pw"
+    %s
+    assert r.xy_scalar == s.xy_scalar, "xy_scalar"
+    assert r.outbound_message == s.outbound_message, "outbound_message"
+    return None
+''' % (K, ids))
+    c.params(s="obj:spake2." + K).returns("none")
+    c.lemma_tags = {"C09"}
 
 # ---------------------------------------------------------------------------------------------------------------
 # C17  binding: with all message/K widths equal, equal keys imply equal arguments (modulo M-sha)
